@@ -108,8 +108,10 @@ TRANSLATED = {
  'C01': ('the step-expression evaluator _process_step_expression and the whole of AttackGraph._generate_graph (node creation loop + linking loop; attackgraph.py)', 'py2lean.py', 'Py/Gen', 'PropsGen/C01.lean, PropsGen/C01_Gen.lean'),
  'C02': ('the node-creation loop of AttackGraph._generate_graph with add_node and the lookups (attackgraph.py)', 'py2lean.py', 'Py/Gen', 'PropsGen/C02.lean'),
  'C03': ('LanguageGraph._get_attacks_for_asset_type and _get_variable_for_asset_type_by_name (languagegraph.py), with the specification objects as references into stores so that aliasing and purity are theorems about the translated code', 'py2lean_lang.py', 'Py/GenLang', 'PropsGen/C03.lean'),
- 'C04': ('all 33 methods of malVisitor (mal_visitor.py), run on parse trees of a hand-written tree builder whose trees are compared with ANTLR\'s on every run', 'py2lean_visitor.py', 'Py/GenVisitor', 'PropsGen/C04.lean'),
+ 'C04': ('all 33 methods of malVisitor (mal_visitor.py), run on parse trees of a hand-written tree builder whose trees are compared with ANTLR\'s on every run (ties proved for expressions, TTC, clauses, associations, visitMal; step / asset / category level executed against the real compiler only)', 'py2lean_visitor.py', 'Py/GenVisitor', 'PropsGen/C04.lean'),
+ 'C17': ('malVisitor.visitMal (include handling) and the hand-written glue compileGen over the tree builder', 'py2lean_visitor.py', 'Py/GenVisitor', 'PropsGen/C17.lean'),
  'C05': ('the mutators and lookups of Model and AttackerAttachment (model.py: add_asset, remove_asset, remove_asset_from_association, _validate_association, add_association, remove_association, add/remove_attacker, entry points, get_*, association_exists_between_assets, get_associated_assets_by_field_name)', 'py2lean_model.py', 'Py/GenModel', 'PropsGen/C05.lean'),
+ 'C06': ('LanguageClassesFactory._generate_assets, _generate_associations (with its three closures), _create_classes up to the JSON schema, get_association_by_signature (classes_factory.py; python_jsonschema_objects stays the modelled boundary)', 'py2lean_classes.py', 'Py/GenClasses', 'PropsGen/C06.lean'),
  'C07': ('Model.get_asset_defenses, asset_to_dict, association_to_dict, attacker_to_dict, _to_dict and _from_dict (model.py; the json / yaml file layer stays a modelled function; _to_dict tied in general, _from_dict by a general shorthand lemma plus kernel-evaluated documents)', 'py2lean_mserial.py', 'Py/GenMSerial', 'PropsGen/C07.lean'),
  'C08': ('analyzers/apriori.py (propagation, evaluation, outer loop incl. the reset)', 'py2lean.py', 'Py/Gen', 'PropsGen/C08.lean'),
  'C09': ('attackgraph.py (lookups, add_node, remove_node, add_attacker, remove_attacker, regenerate_graph, __init__), attacker.py', 'py2lean.py', 'Py/Gen', 'PropsGen/C09.lean, PropsGen/C09_Regen.lean'),
@@ -118,6 +120,7 @@ TRANSLATED = {
  'C12': ('query.py (all functions) and the defense predicates of node.py', 'py2lean.py', 'Py/Gen', 'PropsGen/C12.lean'),
  'C13': ('prune_unviable_and_unnecessary_nodes (apriori.py) with remove_node (attackgraph.py)', 'py2lean.py', 'Py/Gen', 'PropsGen/C13.lean'),
  'C14': ('the three __deepcopy__ methods (node.py, attacker.py, attackgraph.py)', 'py2lean_agserial.py', 'Py/GenAgSerial', 'PropsGen/C14.lean'),
+ 'C18': ('load_model_from_older_version / load_model_from_version_0_0_39 with _process_model (updater.py) and load_model_from_scad_archive after zip/XML parsing (securicad.py)', 'py2lean_legacy.py', 'Py/GenLegacy', 'PropsGen/C18.lean'),
  'C19': ('ingest_model, ingest_attack_graph and get_model (ingestors/neo4j.py) over a recording database that stands for py2neo (ingest functions tied in general; get_model: asset loop tied, whole function by closed form + kernel-evaluated round trips)', 'py2lean_neo4j.py', 'Py/GenNeo4j', 'PropsGen/C19.lean'),
  'C15': ('LanguageGraph._generate_graph, process_step_expression, reverse_dep_chain, _get_associations_for_asset_type, get_all_common_superassets (languagegraph.py; tie = decidable agreement BuildAgrees with the hand model, kernel-evaluated on 15 languages, PropsGen/C15_Build.lean) and LanguageGraphAsset.is_subasset_of / get_all_subassets / get_all_superassets, the LanguageGraphAssociation helpers, get_asset_by_name and get_association_by_fields_and_assets (languagegraph.py)', 'py2lean_lang.py', 'Py/GenLang', 'PropsGen/C15.lean'),
 }
